@@ -13,7 +13,8 @@ from vlib.core import HarnessError, Violation, guarded, lib_call
 ID = "C10"
 DESIGN_REF = "3/C10"
 RULE = (
-    "Rule-based state machine over up to 4 timeline slots: construct(slot, spec, back-end) (own deep copy of the data, options "
+    "Rule-based state machine over up to 4 timeline slots, each history executed in its own freshly started interpreter (so a "
+    "history's outcome depends on that history alone and a shrunk history replays): construct(slot, spec, back-end) (own deep copy of the data, options "
     "without a 'scale' key or with its own fresh scale object), export(slot), export_again(slot). Every export must be "
     "byte-identical to the export of the same spec alone in a freshly started interpreter (one subprocess per reference, cached "
     "per spec) and to the timeline's own previous export. Non-trivial: the history exports a timeline after another timeline with "
@@ -28,7 +29,7 @@ _cache = {}
 
 
 def budget(tier):
-    return dict(examples=40, shards=4, steps=10) if tier == "quick" else dict(examples=70, shards=16, steps=14)
+    return dict(examples=40, shards=4, steps=8) if tier == "quick" else dict(examples=70, shards=16, steps=14)
 
 
 def reference(spec, backend):
@@ -48,19 +49,57 @@ def domain_key(spec):
 
 
 class Interp:
+    """runs one history in its own fresh interpreter (vlib.tlhist) and judges every export"""
+
     def __init__(self, ctx):
         self.ctx = ctx
         self.slots = {}
         self.constructed = []
         self.nontrivial = False
+        self.proc = None
+
+    def worker(self):
+        if self.proc is None:
+            self.proc = subprocess.Popen([sys.executable, "-B", "-m", "vlib.tlhist"], stdin=subprocess.PIPE, stdout=subprocess.PIPE, text=True, bufsize=1)
+            self.ask(None)
+        return self.proc
+
+    def ask(self, step):
+        import select
+
+        p = self.proc if step is None else self.worker()
+        if step is not None:
+            p.stdin.write(json.dumps(step) + "\n")
+            p.stdin.flush()
+        r, _, _ = select.select([p.stdout], [], [], 900)
+        if not r:
+            raise HarnessError("history worker did not answer within 900 s")
+        line = p.stdout.readline()
+        if not line:
+            raise HarnessError("history worker exited")
+        res = json.loads(line)
+        if "error" in res:
+            raise HarnessError("history worker: " + res["error"])
+        if "violation" in res:
+            raise Violation(res["violation"][0], res["violation"][1])
+        return res
+
+    def close(self):
+        if self.proc is not None:
+            try:
+                self.proc.stdin.close()
+                self.proc.wait(timeout=5)
+            except Exception:
+                self.proc.kill()
+            self.proc = None
 
     def step(self, s):
         op = s["op"]
         self.ctx.event("op:" + op)
         if op == "construct":
             spec, backend = s["spec"], s["backend"]
-            t = guarded(lambda: lib_call(tl.make, spec, backend), self.ctx)
-            self.slots[s["slot"]] = dict(t=t, spec=spec, backend=backend, last=None, born=dtm.date.today(), order=len(self.constructed))
+            self.ask(s)
+            self.slots[s["slot"]] = dict(spec=spec, backend=backend, last=None, born=dtm.date.today(), order=len(self.constructed))
             self.constructed.append(domain_key(spec))
             if spec.get("scale") == "default" and spec["kind"] != "linear":
                 self.ctx.event("default-scale")
@@ -68,12 +107,7 @@ class Interp:
             sl = self.slots.get(s["slot"])
             if sl is None:
                 return
-
-            def ex():
-                d = sl["t"].export()
-                return d.decode("utf-8") if isinstance(d, bytes) else d
-
-            doc = guarded(lambda: lib_call(ex), self.ctx)
+            doc = self.ask(s)["doc"]
             mine = domain_key(sl["spec"])
             others_after = [k for k in self.constructed[sl["order"] + 1:] if k != mine]
             others_before = [k for k in self.constructed[:sl["order"]] if k != mine]
@@ -110,14 +144,17 @@ def first_diff(a, b):
 
 def check(spec, ctx):
     it = Interp(ctx)
-    for s in spec["history"]:
-        it.step(s)
+    try:
+        for s in spec["history"]:
+            it.step(s)
+    finally:
+        it.close()
     return it.nontrivial
 
 
 def machine(tier, ctx):
     prop = sys.modules[__name__]
-    small = tl.timeline_spec(tier, max_items=8)
+    small = tl.timeline_spec(tier, max_items=14, extra_engine_opts=True)
 
     class TimelinesMachine(RuleBasedStateMachine):
         def __init__(self):
@@ -146,6 +183,17 @@ def machine(tier, ctx):
             slot = data.draw(st.sampled_from(sorted(self.it.slots)))
             self.do(dict(op="export", slot=slot))
 
+        @precondition(lambda self: len(self.it.slots) > 1)
+        @rule(rev=st.booleans())
+        def export_all(self, rev):
+            for slot in sorted(self.it.slots, reverse=rev):
+                self.do(dict(op="export", slot=slot))
+
+        @rule(slot=st.integers(0, 3), spec=small, backend=st.sampled_from(["svg", "tex"]))
+        def construct_and_export(self, slot, spec, backend):
+            self.do(dict(op="construct", slot=slot, spec=spec, backend=backend))
+            self.do(dict(op="export", slot=slot))
+
         @precondition(lambda self: len(self.it.slots) > 0)
         @rule(data=st.data())
         def export_twice(self, data):
@@ -154,6 +202,7 @@ def machine(tier, ctx):
             self.do(dict(op="export", slot=slot))
 
         def teardown(self):
+            self.it.close()
             brief = [dict(op=s["op"], slot=s["slot"], **({"backend": s["backend"], "kind": s["spec"]["kind"], "n": len(s["spec"]["data"]), "scale": s["spec"].get("scale")} if s["op"] == "construct" else {})) for s in self.history]
             ctx.case({"history": self.history}, self.it.nontrivial or self.dead, sample={"history": brief})
 
